@@ -3,5 +3,6 @@ CONSTANTS MaxDepth = 3
   Families <- FamAlias
   StoreByCopy = FALSE
   TailKeepsSets = TRUE
+  SplitContinues = TRUE
 INVARIANT SeenIsExpected
 CHECK_DEADLOCK FALSE
